@@ -1195,3 +1195,80 @@ m('c16-abs-tol', ['C16'],
   (IM, "            if isclose(vtx.x, xy[0]) and isclose(vtx.y, xy[1]):",
    "            if isclose(vtx.x, xy[0], abs_tol=1e-3) and isclose(vtx.y, xy[1], abs_tol=1e-3):"),
   rule='R-tolerance')
+
+# ---- other behaviour-preserving refactorings (must not alarm) ---------------
+def t(id, props, *edits):
+    CORPUS.append(dict(id=id, props=list(props), edits=list(edits),
+                       rule=None, expect='noalarm'))
+
+
+t('twin-hh2-reorder', ['C20', 'C03'],
+  (HH, """        if self.g:
+            rhs += self.g(elems_fine)
+
+        # Evaluate the RHS on the fine mesh.
+        if self.M0:
+            rhs -= self.M0.linform_vector(elems=elems_fine, use_mp=self.use_mp)""",
+   """        if self.M0:
+            rhs -= self.M0.linform_vector(elems=elems_fine, use_mp=self.use_mp)
+        if self.g:
+            rhs += self.g(elems_fine)"""))
+t('twin-hh2-print', ['C20', 'C03'],
+  (HH, "        # Prolongate the normal phi.\n", "        print('prolongating')\n"))
+t('twin-refine-assert', ['C02', 'C10'],
+  (M, "        # Create the two new elements\n", "        assert len(new_vertices) == 2\n"))
+t('twin-integrate-print', ['C01', 'C11', 'C12'],
+  (SL, "        # If are the same panel.\n", "        assert h_x > 0\n"))
+t('twin-evaluate-comment', ['C07', 'C03'],
+  (SL, "        # Calculate distance of x_hat to both endpoints.\n", "        _ = None\n"))
+t('twin-dorfler-print', ['C06'],
+  (M, "        # First refine in time.\n        marked.sort(key=lambda elem: elem.level_time)",
+   "        print('time pass')\n        marked.sort(key=lambda elem: elem.level_time)"))
+t('twin-weighted-sq', ['C09'],
+  (EE, "        res_sqr = np.asarray(residual(t, x_hat, elem.gamma_space))**2",
+   "        res = np.asarray(residual(t, x_hat, elem.gamma_space))\n        res_sqr = res * res"))
+t('twin-bilform-matrix-print', ['C04', 'C17', 'C03'],
+  (SL, "        time_mat_begin = time.time()\n", "        time_mat_begin = time.time()\n        print('assembling', N, M)\n"))
+t('twin-sobolev-sum', ['C09'],
+  (EE, """        assert len(ips) >= 1
+        return math.fsum([val for elem, val in ips]), ips
+
+    def sobolev_time""", """        assert len(ips) >= 1
+        total = math.fsum([val for elem, val in ips])
+        return total, ips
+
+    def sobolev_time"""))
+t('twin-linform-h', ['C08'],
+  (IP, "                h = d - c\n                math.isclose(elem.diam, h)", "                h = d - c"))
+t('twin-quad-integrate-temp', ['C15', 'C14'],
+  (Q, """        fx = np.asarray(f(x))
+        return (d - c) * (b - a) * np.dot(fx, self.weights)""",
+   """        fx = np.asarray(f(x))
+        area = (d - c) * (b - a)
+        return area * np.dot(fx, self.weights)"""))
+t('twin-duffy-weights-order', ['C15', 'C01'],
+  (Q, "        weights = scheme2d.weights * x\n        if symmetric:", "        weights = x * scheme2d.weights\n        if symmetric:"))
+t('twin-mesh-init-comment', ['C02', 'C10'],
+  (M, "                # Set boundary edges correctly.\n", "                # boundary flags\n"))
+t('twin-grading-print', ['C19'],
+  (M, "            marked_time.sort(key=lambda elem: elem.level_time)\n            for elem in marked_time:\n                self.refine_time(elem)\n\n            # Replace",
+   "            marked_time.sort(key=lambda elem: elem.level_time)\n            print(len(marked_time))\n            for elem in marked_time:\n                self.refine_time(elem)\n\n            # Replace"))
+t('twin-prolongate-assert', ['C20'],
+  (M, "    vec_fine = np.zeros(len(elems_fine))\n", "    vec_fine = np.zeros(len(elems_fine))\n    assert len(vec_coarse) == len(elems_coarse)\n"))
+t('twin-problems-half', ['C03', 'C08'],
+  (PR, "        return (1 / 4) * (erf(\n            (1 - a) / (2 * np.sqrt(t))) + erf(a / (2 * np.sqrt(t)))) * (erf(",
+   "        return 0.25 * (erf(\n            (1 - a) / (2 * np.sqrt(t))) + erf(a / (2 * np.sqrt(t)))) * (erf("))
+t('twin-fint1-reorder', ['C01'],
+  (SLX, """            4 * z * (exp(-(h**2 / (4 * z))) * (h**2 - 12 * z) + 12 * z),
+            -64 * h * PI_SQRT * z**(3 / 2) * erf(h / (2 * sqrt(z))),""",
+   """            -64 * h * PI_SQRT * z**(3 / 2) * erf(h / (2 * sqrt(z))),
+            4 * z * (exp(-(h**2 / (4 * z))) * (h**2 - 12 * z) + 12 * z),"""))
+t('twin-cache-print', ['C17'],
+  (IP, '                print("Stored Initial Operator to {}".format(cache_fn))\n', '                pass\n'))
+t('twin-leafbook-order', ['C02'],
+  (M, """        self.leaf_elements.pop(elem)
+        self.leaf_elements.setdefault(child1)
+        self.leaf_elements.setdefault(child2)""",
+   """        self.leaf_elements.setdefault(child1)
+        self.leaf_elements.setdefault(child2)
+        self.leaf_elements.pop(elem)"""))
